@@ -518,3 +518,43 @@ func TestTxHeaderMutations(t *testing.T) {
 		}
 	})
 }
+
+// ---------------------------------------------------------------------------
+// native fuzz targets (thorough tier; the seed corpus also runs in the quick tier)
+
+func FuzzTxMetadataReadFrom(f *testing.F) {
+	for _, s := range []mdSpec{{}, {trunc: true, truncID: 1}, {extraLen: 1}, {trunc: true, truncID: 7, extraLen: 256}, {extraLen: 100}} {
+		f.Add(s.build().Bytes())
+	}
+	for _, s := range [][]byte{{1, 0xFF, 0xFF}, {1, 1, 1}, {0}, {0, 0, 0, 0, 0, 0, 0, 0}, {2}, {1, 0, 0, 1, 0, 0}, append([]byte{1, 1, 1}, make([]byte, 257)...)} {
+		f.Add(s)
+	}
+	f.Fuzz(func(t *testing.T, b []byte) {
+		if m := checkTxMetadata(b, true); m != "" {
+			t.Fatal(m)
+		}
+	})
+}
+
+func FuzzTxHeaderReadFrom(f *testing.F) {
+	for _, s := range []hdrSpec{
+		{id: 1, version: 0, nentries: 1},
+		{id: 2, ts: 1700000000, version: 1, nentries: 3, blTxID: 1},
+		{id: 1000, version: 1, nentries: 1024, blTxID: 999, md: mdSpec{trunc: true, truncID: 5, extraLen: 65}},
+		{id: 3, version: 1, nentries: 1, blTxID: 2, md: mdSpec{extraLen: 256}},
+	} {
+		b, err := s.build().Bytes()
+		if err != nil {
+			f.Fatal(err)
+		}
+		f.Add(b)
+		f.Add(b[:len(b)-1])
+	}
+	f.Add(f8Input())
+	f.Add(make([]byte, minHdrLen))
+	f.Fuzz(func(t *testing.T, b []byte) {
+		if m := checkTxHeader(b, true); m != "" {
+			t.Fatal(m)
+		}
+	})
+}
